@@ -96,3 +96,15 @@ pub fn payload_stream(
     let (pl, tx) = crate::Payload::from_stream(buf, buf_size);
     (pl, PayloadSender(tx))
 }
+
+/// `inflight::SizedRequest` as implemented for the v3 decoder items: `(size, is_publish, is_chunk)`
+pub fn sized_v3(item: &crate::v3::codec::Decoded) -> (u32, bool, bool) {
+    use crate::inflight::SizedRequest;
+    (item.size(), item.is_publish(), item.is_chunk())
+}
+
+/// `inflight::SizedRequest` as implemented for the v5 decoder items: `(size, is_publish, is_chunk)`
+pub fn sized_v5(item: &crate::v5::codec::Decoded) -> (u32, bool, bool) {
+    use crate::inflight::SizedRequest;
+    (item.size(), item.is_publish(), item.is_chunk())
+}
